@@ -116,6 +116,12 @@ def check_predicates(prog, rep, names):
                 break
             covered |= s_mask
             res = bool(o.value.v)
+            # values that are no code points (above U+10FFFF): no table holds them, so a path on which no search
+            # succeeded and whose key may be such a value must answer false
+            above = [(lo, hi) for lo, hi in ip.rng_get(o.state, ip.Sym("cp", "u32")) if hi > 0x10FFFF]
+            if above and res and not any(v for k, v in o.state.log if isinstance(k, tuple) and k[0] == "in"):
+                detail = "value 0x%X (not a code point): the predicate answers True, the specification (%s over the folded tables) says False for every value above U+10FFFF" % (max(above[0][0], 0x110000), _fmt(f))
+                break
             wrong = s_mask & (~expect & FULL) if res else s_mask & expect
             if wrong:
                 cp = (wrong & -wrong).bit_length() - 1
